@@ -151,7 +151,9 @@ DEMOTE = {
     "ACCUMULATE-ONLY": ({"GEN-KERNEL", "EXPR-KERNEL", "GEN-KERNEL-FACET"}, lambda key: key.endswith(":undeclared")),
     # the passes an expression goes through, their order and the real / complex treatment: EXPR-PREPROCESS interprets _analyze_expression with recording passes
     "PIPE-FLAGS": ({"EXPR-PREPROCESS"}, lambda key: "_analyze_expression:" in key),
-    "TYPE-ROLES": ({"EXPR-PREPROCESS"}, lambda key: key.endswith("_analyze_expression:remove-complex-nodes")),
+    "TYPE-ROLES": ({"EXPR-PREPROCESS", "COMPILE-PIPELINE"}, lambda key: key.endswith("_analyze_expression:remove-complex-nodes") or key.endswith(":scalar-type-to-analysis")),
+    # which stages compile_ufl_objects runs, once each, chained, and what it returns: COMPILE-PIPELINE interprets it with recording stages
+    "SINGLE-PIPELINE": ({"COMPILE-PIPELINE"}, lambda key: "compile_ufl_objects:" in key),
     "PERM-FLAG-IMPL": ({"GEN-INTEGRAL-DRIVER"}, lambda key: True),
     "EXPR-COEF-POS": ({"GEN-EXPRESSION-IR", "ANALYZE-OBJECTS"}, lambda key: True),
     "EXPR-LAYOUT": ({"GEN-EXPR", "GEN-EXPRESSION-IR"}, lambda key: True),
